@@ -117,7 +117,11 @@ def run(rep, ctx):
     cases += body_cases
     # error requests carry no validator
     cases += [mk(('nope', [('a', A), ('b', B)])), mk(('length', [('a', A)])), mk(('length', [('a', 'ftp://x'), ('b', B)])),
-              mk(('length', [('a', A), ('b', 'http://down.test/')]))]
+              mk(('length', [('a', A), ('b', 'http://down.test/')])),
+              # BOTH sides at fault (each way of failing, the same and different ones)
+              mk(('length', [('a', 'ftp://x'), ('b', 'site.test/no-scheme')])), mk(('length', [('a', 'http://down.test/1'), ('b', 'http://down.test/2')])),
+              mk(('html_token', [('a', A), ('a_hash', 'f' * 64), ('b', B), ('b_hash', '0' * 64)])), mk(('length', [('a', 'ftp://x'), ('b', 'http://down.test/')])),
+              mk(('html_source_dmp', [('a', 'http://down.test/1'), ('b', B), ('b_hash', 'bad')]))]
     records = sc.run_cases(cases, ctx['model_available'])
     etag_of = {}
     fails_total = 0
